@@ -182,10 +182,115 @@ func c10Exec(kind string, k int, in c10Input, rep *Report) (viol, detail string)
 	return "", ""
 }
 
+// c10Stalled: part (h). The first client's tunnel has an open channel to a host that keeps writing while the
+// client has stopped reading (the gateway's writes to it block: send window of 32 bytes); then that client
+// misbehaves in one of several ways or just goes away. Another client must still be served, and once everybody
+// left no gateway goroutine may remain.
+func c10Stalled(kind, end string, rep *Report) (viol, detail string) {
+	cfg := c01Cfg(true, false, kind)
+	probeOK := false
+	var probeWhy string
+	canon := c10Canonical()
+	x := vsched.Run(nil, 40000, false, nil, func() {
+		w := NewWorld()
+		w.ClientWindow = 32
+		w.Accept = func(a string) bool { return true }
+		var be *Backend
+		w.OnBackend = func(b *Backend) { be = b }
+		gw := NewGateway(cfg.Gw)
+		h := handlerOf(gw)
+		id := NewIdentity("alice", "10.0.0.1", "10.0.0.1:50000")
+		c, ok := w.OpenTunnel(kind, h, gw, "conn-1", "10.0.0.1:50000", id, nil)
+		if !ok {
+			probeWhy = "first tunnel not opened"
+			return
+		}
+		for _, p := range canon[:4] {
+			c.SendSegment(p)
+			c.RecvPacket() // the client still reads its setup responses
+		}
+		vsched.WaitIdle()
+		if be == nil {
+			probeWhy = "no backend connection"
+			return
+		}
+		stalled := false
+		for i := 0; i < 4; i++ {
+			// the host writes again and again; the client reads nothing: after the first packet filled the
+			// window the relay goroutine blocks in its write to the client
+			be.Conn.Write([]byte("host-keeps-writing-host-keeps-writing-"))
+			vsched.WaitIdle()
+		}
+		for _, b := range vsched.Cur().BlockedNow() {
+			if strings.HasPrefix(b.Desc, "write ") {
+				stalled = true
+			}
+		}
+		if !stalled {
+			probeWhy = "harness: the relay goroutine did not stall on the client"
+			return
+		}
+		switch end {
+		case "bad-header":
+			c.SendSegment([]byte{0xA, 0, 0, 0, 4, 0, 0, 0})
+		case "out-of-order":
+			c.SendSegment(canon[0])
+		case "close-channel":
+			c.SendSegment(tsgu.Data([]byte("x")))
+			c.SendSegment(tsgu.CloseChannel())
+		case "keeps-connection":
+			// nothing: the client just sits there
+		}
+		vsched.WaitIdle()
+		id2 := NewIdentity("bob", "10.0.0.2", "10.0.0.2:50000")
+		w.ClientWindow = 0
+		c2, ok := w.OpenTunnel(kind, h, gw, "conn-2", "10.0.0.2:50000", id2, nil)
+		if !ok {
+			probeWhy = "second tunnel not opened"
+			return
+		}
+		c2.SendSegment(canon[0])
+		vsched.WaitIdle()
+		c2.Absorb()
+		pk := c2.NewPackets()
+		if len(pk) == 1 && pk[0].Type == tsgu.TypeHandshakeResp && tsgu.ParseResp(pk[0]).Status == 0 {
+			probeOK = true
+		} else {
+			probeWhy = fmt.Sprintf("probe handshake got %d packets", len(pk))
+		}
+		c2.CloseClient()
+		c.CloseClient()
+	})
+	rep.add("executions", 1)
+	rep.add("transitions", int64(x.Steps))
+	defer x.Finish()
+	if x.Abort != "" {
+		return "step-cap-exceeded (livelock?)", x.Abort
+	}
+	for _, p := range x.Panics() {
+		return "panic:" + shortFn(panicSite(p)), fmt.Sprintf("thread %s: %s", p.Name, p.Value)
+	}
+	if !probeOK {
+		why := probeWhy
+		for _, b := range x.Blocked {
+			if !b.Daemon && b.Name != "main" {
+				why += fmt.Sprintf("; %s blocked on %s", b.Name, b.Desc)
+			}
+		}
+		return "other-clients-no-longer-served", why
+	}
+	for _, b := range x.Blocked {
+		if !b.Daemon && b.Name != "main" {
+			return "gateway-thread-wedged:" + strings.SplitN(b.Name, "-", 2)[0], fmt.Sprintf("%s blocked on %s after all clients left", b.Name, b.Desc)
+		}
+	}
+	return "", ""
+}
+
 func c10(env *Env, rep *Report) {
 	ins := c10Inputs()
 	rep.Rule = fmt.Sprintf("(a) %d hostile packet inputs (every type in {0..0x12,0xFF,0x100,0xFFFF} x header length fields {0..16,true-1,true,true+1,4096,0xFFFF,2^31-1,2^31,2^32-1}; headers truncated at 0..7 bytes; every body truncation of each request; inner length fields {0,1,true-1,true,true+1,0x7FFF,0xFFFF}; field masks; invalid UTF-16) x 6 protocol phases (after 0..5 packets of the canonical session) x transports {processor, websocket, legacy}; "+
-		"(c) NTLM messages against the real verifier; (d) KDC-proxy bodies against the real handler; (e) every sequence of up to 3 requests from {RDG_IN_DATA, RDG_OUT_DATA, websocket upgrade, GET, unknown method} x connection ids {X, Y, none} against the real handler; (b) HTTP-level inputs against the real rdpgw binary (see the part reports); (g) a tour of the real binary under 6 authentication configurations: login, download, token introspection, every registered route, and a complete session over each transport with the callbacks as main() wires them. Oracle for (a): no panic in any thread, a second client still completes a handshake afterwards, and after all clients left no gateway goroutine remains. distinct_nontrivial = distinct (input, phase, transport) cases.", len(ins))
+		"(c) NTLM messages against the real verifier; (d) KDC-proxy bodies against the real handler; (e) every sequence of up to 3 requests from {RDG_IN_DATA, RDG_OUT_DATA, websocket upgrade, GET, unknown method} x connection ids {X, Y, none} against the real handler; (b) HTTP-level inputs against the real rdpgw binary (see the part reports); (h) a client that stopped reading while its host keeps writing (gateway writes block), then a bad header / out-of-order packet / channel close / nothing: another client is still served and nothing is left behind; (g) a tour of the real binary under 6 authentication configurations: login, download, token introspection, every registered route, and a complete session over each transport with the callbacks as main() wires them. Oracle for (a): no panic in any thread, a second client still completes a handshake afterwards, and after all clients left no gateway goroutine remains. distinct_nontrivial = distinct (input, phase, transport) cases.", len(ins))
 	rep.Assumptions = append(rep.Assumptions, "each hostile input is one transport read (segmentations are C08's); table cookie checker")
 	if env.Replay != nil {
 		rp := env.Replay
@@ -250,6 +355,18 @@ func c10(env *Env, rep *Report) {
 	}
 	if env.Part == "" || env.Part == "g" {
 		distinct += c10Tour(env, rep)
+	}
+	if (env.Part == "" || env.Part == "h") && env.Shard == 0 {
+		for _, kind := range []string{"ws", "legacy"} {
+			for _, end := range []string{"bad-header", "out-of-order", "close-channel", "keeps-connection"} {
+				distinct++
+				v, d := c10Stalled(kind, end, rep)
+				rep.outcome(fmt.Sprintf("h %s %s verdict=%s", kind, end, v))
+				if v != "" {
+					rep.violate("C10/"+v+"/stalled-client/"+kind+"/"+end, d, map[string]any{"noreplay": true})
+				}
+			}
+		}
 	}
 	rep.add("distinct", int64(distinct))
 	rep.add("states", int64(distinct))
